@@ -731,7 +731,17 @@ def fam_misc(R, idx):
     sign extension of slices and bits, writes through dynamic indices."""
     ctx = Ctx(R)
     w = R.choice([8, 32, 33])
-    kind = idx % 6
+    kind = idx % 7
+    if kind == 6:
+        # sign / zero extension of an indexed part-select (variable base, constant width): the sign bit is
+        # bit base + width - 1 of the sliced signal
+        W = R.choice([16, 32])          # the index must have clog2(W) bits; cycles with base + width > W raise in PyMTL
+        k = R.choice([2, 4, 5])
+        decl = ["s.a = InPort( Bits%d )" % W, "s.i = InPort( Bits%d )" % clog2(W), "s.o = OutPort( Bits%d )" % (k + 4), "s.o2 = OutPort( Bits%d )" % (k + 4),
+                "s.o3 = OutPort( Bits%d )" % k]
+        blocks = [_block("up", ["s.o @= sext( s.a[ s.i : s.i + %d ], %d )" % (k, k + 4), "s.o2 @= zext( s.a[ s.i : s.i + %d ], %d )" % (k, k + 4),
+                                "s.o3 @= s.a[ s.i : s.i + %d ]" % k])]
+        return "misc_k6_w%d_k%d" % (W, k), _emit(ctx, blocks, decl)
     if kind == 0:
         decl = ["s.sel = InPort( Bits2 )", "s.o = OutPort( Bits%d )" % w, "s.o2 = OutPort( Bits%d )" % w,
                 "s.tab = [ Bits%d( %d ), Bits%d( %d ), Bits%d( %d ), Bits%d( %d ) ]" % (w, lit(R, w), w, lit(R, w), w, lit(R, w), w, lit(R, w))]
